@@ -81,6 +81,11 @@ def check_triple(T, M, W, obs, axis=False):
     inv = call(t.inverted)
     if not obs.claim('inverse', not raised(inv), lambda: 'inverted(): %r' % (inv,)):
         return
+    # objects built later (other parameters) must not change what this one computes
+    call(FlowCal.plot._LogicleTransform, T=T * 3 + 7, M=M + 0.37, W=W / 2.0 + 0.11)
+    x_again = np.asarray(t.transform_non_affine(s), dtype=float)
+    obs.claim('stable', bool(np.array_equal(x_again, x)) and (t.T, t.M, t.W) == (T, M, W),
+              'a transform changed after another transform was constructed')
     s2 = np.asarray(call(inv.transform_non_affine, x), dtype=float)
     e = float(np.max(np.abs(s2 - s))) if s2.shape == s.shape else float('inf')
     obs.claim('inverse', e <= 1e-4 * M, lambda: 'T=%r M=%r W=%r: inverse error %r > 1e-4*M' % (T, M, W, e))
